@@ -33,7 +33,9 @@ inline unsigned char rx_byte(uint64_t i) { return (unsigned char)((i * 89 + (i >
 
 // ops (all outside): <kind> <dt_ms> <n> <x>
 //   presend n   (mode 0 only, before enable)      enable       send n      prd n      pwr n
-//   policy threshold consume(0 all,1 k bytes,2 nothing) k        pclose      pwrclose n      disconnect     advance ms
+//   policy threshold consume(0 all,1 k bytes,2 nothing) k shrink_in_cb        pclose      pwrclose n      disconnect     advance ms
+//   chain n k   the next k send-complete notifications each send n more bytes from inside the callback
+//   shrink which(0 receive,1 send,2 both)   BufferedFd::shrinkRecvBuffer()/shrinkSendBuffer() (mode 0)
 void generate(sim::Rng &r, uint64_t seed, const std::string &tier, sim::Plan &p) {
   bool thorough = tier == "thorough";
   long mode = (long)r.below(3);
@@ -69,10 +71,12 @@ void generate(sim::Rng &r, uint64_t seed, const std::string &tier, sim::Plan &p)
     long dt = r.chance(500) ? 0 : r.range(1, 10);
     if (!enabled) { op.kind = "enable"; op.a = {dt, 0, 0}; fset(op); p.ops.push_back(op); enabled = true; continue; }
     unsigned x = (unsigned)r.below(100);
-    if (x < 35) { op.kind = "send"; op.a = {dt, pick_size(), 0}; }
+    if (x < 30) { op.kind = "send"; op.a = {dt, pick_size(), 0}; }
+    else if (x < 35) { op.kind = "chain"; op.a = {dt, pick_size(), r.range(1, 4)}; }
     else if (x < 60) { op.kind = "prd"; op.a = {dt, r.chance(300) ? r.range(1, 100) : pick_size() * 2, 0}; }
     else if (x < 80) { op.kind = "pwr"; op.a = {dt, pick_size(), 0}; }
-    else if (x < 90) { op.kind = "policy"; op.a = {dt, r.pick((const long[]){0, 0, 1, 1, 2, 10, 2000}), (long)r.below(3), r.range(1, 3000)}; }
+    else if (x < 88) { op.kind = "policy"; op.a = {dt, r.pick((const long[]){0, 0, 1, 1, 2, 10, 2000}), (long)r.below(3), r.range(1, 3000), r.chance(350) ? 1 : 0}; }
+    else if (x < 90) { op.kind = "shrink"; op.a = {dt, (long)r.below(3), 0}; }
     else if (x < 93) { op.kind = "advance"; op.a = {dt, r.range(1, 200), 0}; }
     else if (x < 95 && !closed && i > n / 2) { op.kind = "pclose"; op.a = {dt, 0, 0}; closed = true; }
     else if (x < 97 && !closed && i > n / 2) { op.kind = "pwrclose"; op.a = {dt, pick_size(), 0}; closed = true; }   // last bytes and close pending in the same wake-up
@@ -109,6 +113,8 @@ struct World {
   long threshold = 0, max_threshold = 0, consume_mode = 0, consume_k = 1;
   long closed_reports = 0;
   long send_completes = 0;
+  long chain_n = 0, chain_left = 0;
+  bool shrink_in_cb = false;
   bool finished = false;
   std::string path;
 };
@@ -142,15 +148,18 @@ void on_receive(Buffer &buff) {
   else if (W.consume_mode == 1) take = std::min<size_t>(n, (size_t)W.consume_k);
   buff.hasRead(take);
   W.rx_consumed += take;
+  if (W.shrink_in_cb) buff.shrink();
   sim::relevant();
 }
 
+bool tbox_send(long n);
 void on_send_complete() {
   ++W.send_completes;
   uint64_t accepted = W.tx_peer_read + (uint64_t)peer_unread();
   sim::trace("send complete sent=%lu accepted=%lu", (unsigned long)W.tx_sent, (unsigned long)accepted);
   if (!W.peer_closed && accepted != W.tx_sent)
     sim::violation("C06/send-complete-early", sim::fmt("send-complete fired although only %lu of the %lu bytes queued so far have been written to the descriptor", (unsigned long)accepted, (unsigned long)W.tx_sent));
+  if (W.chain_left > 0 && !W.local_disconnected && !W.peer_closed) { --W.chain_left; tbox_send(W.chain_n); sim::probe("chained_sends"); }
 }
 
 void on_closed(const char *how) {
@@ -228,13 +237,16 @@ void apply(const sim::Op &op) {
   else if (k == "enable") { if (W.mode == 0 && W.bfd && !W.bfd_enabled && !W.local_disconnected) { W.bfd->enable(); W.bfd_enabled = true; sim::trace("enable"); } }
   else if (k == "send") { if (!W.local_disconnected && !(W.mode == 0 && !W.bfd)) tbox_send(std::max(1L, std::min(4000000L, n))); }
   else if (k == "policy") {
-    W.threshold = std::max(0L, n); W.consume_mode = op.arg(2) % 3; W.consume_k = std::max(1L, op.arg(3));
+    W.threshold = std::max(0L, n); W.consume_mode = op.arg(2) % 3; W.consume_k = std::max(1L, op.arg(3)); W.shrink_in_cb = (op.arg(4) & 1) != 0;
     if (W.mode == 0) { if (W.bfd) W.bfd->setReceiveCallback(on_receive, (size_t)W.threshold); }
     else if (W.mode == 2) W.client->setReceiveCallback(on_receive, (size_t)W.threshold);
     // TcpServer applies its threshold to new connections only: keep the policy's consume part, not the threshold
     if (W.mode == 1) W.threshold = 0;
     W.max_threshold = std::max(W.max_threshold, W.threshold);
     sim::trace("policy thr=%ld mode=%ld k=%ld", W.threshold, W.consume_mode, W.consume_k);
+  } else if (k == "chain") { W.chain_n = std::max(1L, std::min(4000000L, n)); W.chain_left = std::max(0L, std::min(8L, op.arg(2))); }
+  else if (k == "shrink") {
+    if (W.mode == 0 && W.bfd) { long w = ((op.arg(1) % 3) + 3) % 3; if (w != 1) W.bfd->shrinkRecvBuffer(); if (w != 0) W.bfd->shrinkSendBuffer(); sim::probe("shrinks"); }
   } else if (k == "disconnect") {
     if (W.local_disconnected) return;
     W.local_disconnected = true;
@@ -327,8 +339,11 @@ void execute(const sim::Plan &plan) {
   // quiescence: the peer drains (and nothing else happens) until no byte moves any more
   // (a small SO_SNDBUF lets only a few KiB move per step, so the number of steps follows the volume to be moved)
   long planned = 0;
-  for (const sim::Op &op : plan.ops) if (op.kind == "send" || op.kind == "presend") planned += std::max(1L, std::min(4000000L, op.arg(1)));
-  long drain_steps = 400 + std::min(30000L, planned / 1024);
+  for (const sim::Op &op : plan.ops) {
+    if (op.kind == "send" || op.kind == "presend") planned += std::max(1L, std::min(4000000L, op.arg(1)));
+    if (op.kind == "chain") planned += std::max(1L, std::min(4000000L, op.arg(1))) * std::max(0L, std::min(8L, op.arg(2)));
+  }
+  long drain_steps = 400 + std::min(60000L, planned / 1024);
   for (long k = 0; k < drain_steps; ++k) {
     t += 1000000;
     tl.at(t, [] { sim::fault_scope(0, 0); peer_read(1 << 30); });
